@@ -116,6 +116,8 @@ def _mk_body(sname, scfg, rig: Rig):
         try:
             for op in ops:
                 o = op["op"]
+                if op.get("only_ty") and op["only_ty"] != ty:
+                    continue
                 if o == "gate":
                     await rig.make_gate(key)
                 elif o == "send":
@@ -157,7 +159,9 @@ def _mk_body(sname, scfg, rig: Rig):
                     if retry < op.get("until", 1 << 30):
                         raise EXC[op.get("exc", "ValueError")]("boom %s %s r%d" % (sname, uid, retry))
                 elif o == "store_set":
-                    await ctx.store.set(op["key"], uid)
+                    # idempotent write: the key is derived from the input event
+                    k = ("k_%s_%s" % (sname, uid)).replace(".", "_").replace(">", "_").replace(":", "_").replace("(", "_").replace(")", "_")
+                    await ctx.store.set(k, 1)
                 elif o in ("ret", "stop", "none", "junk"):
                     ov = rig.script.get(base)
                     if ov:
@@ -171,7 +175,7 @@ def _mk_body(sname, scfg, rig: Rig):
                     if o == "stop":
                         how = "stop"
                         from workflows.events import StopEvent
-                        return StopEvent(result="r:" + uid)
+                        return StopEvent(result=op.get("result") or ("r:" + uid))
                     if o == "none":
                         how = "none"
                         return None
